@@ -29,3 +29,9 @@ pub use compression::{
     Compression, CompressionAlgorithm, CompressionError, CompressionLevelOutOfRangeError,
 };
 pub use hashsum::HashSum;
+
+/// Verification hooks: re-exports of internal items for the /verif correspondence harness.
+#[cfg(oll3_bita_verif)]
+pub mod verif {
+    pub use crate::rolling_hash::{BuzHash, RollSum, RollingHash};
+}
